@@ -116,6 +116,8 @@ GENERIC_EQUIV = [
     {"name": "every function local renamed to an unrelated name (zqN_M) + reformatted", "kind": "equiv", "transform": "@"},
     {"name": "every if/else and conditional expression written with the negated test and exchanged arms", "kind": "equiv", "transform": "swapif"},
     {"name": "every single comparison written the other way round (a < b -> b > a, a == b -> b == a)", "kind": "equiv", "transform": "flipcmp"},
+    {"name": "single-use temporaries folded into the statement that reads them", "kind": "equiv", "transform": "inline"},
+    {"name": "first call-valued argument of every statement-level call given a name (_xtN = g(x); h(_xtN))", "kind": "equiv", "transform": "extract"},
 ]
 
 
